@@ -164,3 +164,20 @@ def check(ctx):
     ok = len(de) == 1 and util.on_every_return_path(body, de[0][0]) and not util.in_loop(body, de[0][0])
     ctx.ob("R14.5", f"{kd}|deallocates-once", ok, f"{body.f['file']}:{body.f['line']}", "dropping the unique handle returns its slot exactly once")
     ctx.floor("R14.2", 6); ctx.floor("R14.3", 5); ctx.floor("R14.4", 5); ctx.floor("R14.5", 5)
+
+
+# ---------------------------------------------------------------------------------------------- R14.6 (added after seed C14-s1)
+_check_c14 = check
+def check(ctx):
+    _check_c14(ctx)
+    # 'the value is destroyed and its slot returned exactly when the last handle is dropped': the pool's dealloc_id -- the only thing the last
+    # handle's drop calls -- destroys the payload strictly BEFORE the slot re-enters the free list (otherwise a concurrent allocation owns the slot
+    # while the old destructor still runs over it).  Shared with C13 R13.1 / C05 R05.4.
+    import importlib
+    C13 = importlib.import_module("props.C13")
+    class OnlyDealloc(util.PrefixedCtx):
+        def ob(self, rule, key, ok, site="", detail="", nontrivial=True, undecided=False):
+            if rule == "R13.1" and "dealloc_id" in key: return super().ob(rule, key, ok, site, detail, nontrivial, undecided)
+            return ok
+    C13.check(OnlyDealloc(ctx, "R14.6"))
+    ctx.floor("R14.6", 2)
